@@ -73,6 +73,31 @@ def region(t, v):
     return "above-unsigned-max"
 
 
+def vkey(t, v, what):
+    """Stable key of a disagreement: the relocation type and the class of the value.
+    One root cause = one key: the unchecked (64-bit / _NC) types all share AllowedRange::no_check()."""
+    if what == "rejected" and t["sign"] == "none" and v == (1 << 63) - 1:
+        return "unchecked-type:value-i64-max:rejected"
+    if what == "accepted":
+        return f"{t['name']}:overflow-accepted"
+    return f"{t['name']}:{region(t, v)}:{what}"
+
+
+def stored_ok(t, word, v, want_field):
+    """Does the observed word hold v?  Exact field equality, except for the MOVN/MOVZ group types,
+    where the decision MOVN vs MOVZ is part of the encoding: there RelocRange's NoTruncation is applied
+    to the observed word (MovExt: imm16 inverted and ones above the field for MOVN)."""
+    if word is None:
+        return False
+    if t["insn"] != "Movnz":
+        return (word & t["mask_int"]) == want_field
+    imm = (word >> 5) & 0xFFFF
+    movn = not (word >> 30) & 1
+    bits = (~imm & 0xFFFF) if movn else imm
+    rebuilt = (bits << t["lo"]) | ((M64 - (1 << t["hi"])) % M64 if (movn and t["hi"] < 64) else 0)
+    return rebuilt == (v >> t["lo"]) << t["lo"]
+
+
 def field_of(t, out_hex):
     raw = bytes.fromhex(out_hex)[:8]
     return int.from_bytes(raw, "little") & t["mask_int"]
@@ -143,10 +168,11 @@ def gen_case(d, idx, rec):
     .text
 _start:
 {exit_code}
-    .section .rodata.c12,"a"
+    .section .text.c12,"ax"
     .balign 8
     .ascii "{MARK.decode()}"
     .balign 4
+    .globl c12sym
 place:
     .reloc ., {rec['name']}, {target}
     {init}
@@ -232,7 +258,7 @@ def run(ctx):
             for k in ("ld", "lld"):
                 if k in res and res[k]["ok"] and fits:
                     w = res[k]["word"]
-                    if w is None or (w & rec["mask_int"]) != want_field:
+                    if not stored_ok(rec, w, v, want_field):
                         raise ToolError(f"observer/oracle problem: {k} accepted {name} v={v:#x} but the field is "
                                         f"{w} (expected {want_field:#x}); args {res['args']}")
             e2e.append({"name": name, "v": f"{v:#x}", "fits": fits, "vote": vote, "wild_ok": res["wild"]["ok"]})
@@ -248,24 +274,29 @@ def run(ctx):
                     support.setdefault((name, reg), set()).add("spec-vs-lld")
                 continue
             support.setdefault((name, reg), set()).add("ok")
+            if "PLT32" in name:
+                # L+A-P: the linker may route the reference through a PLT entry it chooses (wild does,
+                # for a section-symbol target), so the generator does not control the value end to end;
+                # these types are judged in-process only
+                continue
             w = res["wild"]
             files = {"case.s": (d / f"c{i}.s").read_text()}
             meta = {"type": name, "value": f"{v:#x}", "signed_value": signed(v), "spec_fits": fits, "references": vote,
                     "link_args": res["args"], "wild": w, "refs": {k: res[k] for k in ("ld", "lld") if k in res}}
             if w["timed_out"]:
-                note(f"{name}:{reg}:hang", f"wild hung on {name} v={signed(v)}", meta, files)
+                note(vkey(rec, v, "hang"), f"wild hung on {name} v={signed(v)}", meta, files)
             elif fits and not w["ok"]:
                 kind = "rejected" if ("outside of bounds" in w["err"] or "out of range" in w["err"]) else "failed"
-                note(f"{name}:{reg}:{kind}",
+                note(vkey(rec, v, kind),
                      f"{name} value {signed(v)} ({v:#x}) fits ({rec['sign']} {rec['n']}-bit) and is accepted by "
                      f"{' and '.join(k for k in ('ld', 'lld') if k in res)}, but wild fails: {w['err'].strip()[-160:]}",
                      meta, files)
             elif not fits and w["ok"]:
-                note(f"{name}:{reg}:accepted",
+                note(vkey(rec, v, "accepted"),
                      f"{name} value {signed(v)} ({v:#x}) does not fit and is rejected by the references, but wild "
                      f"links it (field {w['word']})", meta, files)
-            elif fits and (w["word"] is None or (w["word"] & rec["mask_int"]) != want_field):
-                note(f"{name}:{reg}:wrong-field",
+            elif fits and not stored_ok(rec, w["word"], v, want_field):
+                note(vkey(rec, v, "wrong-field"),
                      f"{name} value {signed(v)}: wild wrote {w['word']} & mask != {want_field:#x}", meta, files)
         if spec_bugs:
             raise ToolError("GNU ld and lld agree with each other and contradict RelocRange.tla (spec bug): "
@@ -309,7 +340,7 @@ def run(ctx):
     for q, (t, v, fits, want_field, src), got in zip(reqs, meta, res):
         name, reg = t["name"], region(t, v)
         if "panic" in got:
-            note(f"{name}:{reg}:panic", f"write_to_buffer panicked for {name} v={v:#x}: {got['panic']}", {"request": q})
+            note(vkey(t, v, "panic"), f"write_to_buffer panicked for {name} v={v:#x}: {got['panic']}", {"request": q})
             continue
         if not got.get("known"):
             raise ToolError(f"{name} ({q}) is not in wild's relocation table: drop it from RelocRange.tla or handle it")
@@ -321,11 +352,11 @@ def run(ctx):
         m = {"request": q, "got": got, "spec_fits": fits, "expected_field": want_field, "source": src,
              "how": "echo '<request>' | .cache/target-conf/release/wildconf reloc-range"}
         if fits and not got["ok"]:
-            note(f"{name}:{reg}:rejected", f"write_to_buffer({name}, {signed(v)}) fails: {got['err']}", m)
+            note(vkey(t, v, "rejected"), f"write_to_buffer({name}, {signed(v)}) fails: {got['err']}", m)
         elif not fits and got["ok"]:
-            note(f"{name}:{reg}:accepted", f"write_to_buffer({name}, {signed(v)}) accepts a value that does not fit", m)
-        elif fits and field_of(t, got["out"]) != want_field:
-            note(f"{name}:{reg}:wrong-field",
+            note(vkey(t, v, "accepted"), f"write_to_buffer({name}, {signed(v)}) accepts a value that does not fit", m)
+        elif fits and not stored_ok(t, int.from_bytes(bytes.fromhex(got["out"])[:8], "little"), v, want_field):
+            note(vkey(t, v, "wrong-field"),
                  f"write_to_buffer({name}, {signed(v)}) wrote field {field_of(t, got['out']):#x}, expected {want_field:#x}", m)
     for key in sorted(pending):
         cnt, text, m, files = pending[key]
